@@ -119,6 +119,19 @@ Theorem C17_subset_write_visible_in_set : forall xs lo len i x xs',
 Proof. exact sub_elem_visible_lemma. Qed.
 Print Assumptions C17_subset_write_visible_in_set.
 
+(* item *= k and item /= k change that item's conversion only; every sibling of the set is spared *)
+Theorem C17_item_inplace_scale_spares_siblings : forall xs i k xs',
+  sstep xs (SItemMul i k) = Ok xs' ->
+  nthq xs' i = nthq xs i * k /\ (forall j, j <> i -> nthq xs' j = nthq xs j) /\ length xs' = length xs.
+Proof. exact item_mul_spares_siblings_lemma. Qed.
+Print Assumptions C17_item_inplace_scale_spares_siblings.
+Theorem C17_item_inplace_div_spares_siblings : forall xs i k xs',
+  sstep xs (SItemDiv i k) = Ok xs' ->
+  ~ k == 0 /\ nthq xs' i = nthq xs i * (1 / k) /\ (forall j, j <> i -> nthq xs' j = nthq xs j)
+  /\ length xs' = length xs.
+Proof. exact item_div_spares_siblings_lemma. Qed.
+Print Assumptions C17_item_inplace_div_spares_siblings.
+
 (* non-vacuity: the hypotheses of the algebraic theorems are met by a concrete pair *)
 Definition exA := mkrxn [-1; 1#2; 0; 0] 0 (1#2) false [].
 Definition exB := mkrxn [-1; 0; 2; 0] 0 (1#4) false [].
